@@ -2,7 +2,7 @@
 
 use crate::ckalloc;
 use crate::ctx::Ctx;
-use crate::elem::{Elem, B1, P8, T24};
+use crate::elem::{Elem, B1, P8, T24, Z};
 use crate::states::{build, Coll, MapC, SetC, Spec, TableC, RECIPES};
 use crate::util::{Json, Rng};
 
@@ -308,22 +308,77 @@ fn case<C: Ops>(c: &mut Ctx, spec: &Spec, rng: &mut Rng, name: &str) {
     }
 }
 
+/// HashTable of zero-sized duplicates: elements are indistinguishable, so counts are compared.
+fn zst_table(c: &mut Ctx, rng: &mut Rng) {
+    use crate::ckalloc::CkAlloc;
+    let n = *rng.pick(&[1usize, 2, 5, 8, 15, 16, 17, 40]);
+    let h = rng.next();
+    let mk = || {
+        let mut t: hashbrown::HashTable<Z, CkAlloc> = hashbrown::HashTable::new_in(CkAlloc);
+        for _ in 0..n {
+            t.insert_unique(h, Z::make(0, 0), |_| h);
+        }
+        t
+    };
+    let what = format!("HashTable<Z> with {} duplicates (hash {:#x})", n, h);
+    for keep_mod in [1usize, 2, 3, usize::MAX] {
+        c.evaluations += 1;
+        c.sig_parts(&[900, (n > 16) as u64, keep_mod.min(9) as u64]);
+        let mut t = mk();
+        let mut k = 0usize;
+        t.retain(|_| {
+            k += 1;
+            keep_mod != usize::MAX && k % keep_mod == 0
+        });
+        let want = if keep_mod == usize::MAX { 0 } else { n / keep_mod };
+        crate::check!(k == n, "{}: retain called its predicate {} times", what, k);
+        crate::check!(t.len() == want && t.iter().count() == want, "{}: retain(keep every {}th) leaves len {} / iter {} instead of {}", what, keep_mod as i64, t.len(), t.iter().count(), want);
+        let d = t.verif_dump();
+        crate::validate::check_safety(&d, &what);
+        let mut t = mk();
+        let mut k = 0usize;
+        let limit = rng.usize_below(n + 1);
+        let mut got = 0usize;
+        {
+            let mut it = t.extract_if(|_| {
+                k += 1;
+                keep_mod != usize::MAX && k % keep_mod == 0
+            });
+            while got < limit {
+                if it.next().is_none() {
+                    break;
+                }
+                got += 1;
+            }
+        }
+        crate::check!(t.len() == n - got && t.iter().count() == n - got, "{}: extract_if yielded {} but len is {} of {}", what, got, t.len(), n);
+        let d = t.verif_dump();
+        crate::validate::check_safety(&d, &what);
+        let take = rng.usize_below(n + 1);
+        let y = t.drain().take(take).count();
+        crate::check!(y == take.min(n - got) && t.is_empty(), "{}: drain yielded {} and left len {}", what, y, t.len());
+    }
+}
+
 pub fn run(c: &mut Ctx) {
     c.run_scenarios(|c, idx, rng| {
-        let recipe = RECIPES[((crate::util::mix(idx) / 7) % RECIPES.len() as u64) as usize];
+        let recipe = RECIPES[((crate::util::mix(idx) / 10) % RECIPES.len() as u64) as usize];
         let spec = Spec::random(rng, recipe);
         let mut d = Json::obj();
         d.set("state", Json::s(spec.describe()));
-        d.set("case", Json::i(crate::util::mix(idx) % 7));
+        d.set("case", Json::i(crate::util::mix(idx) % 10));
         c.describe(d);
-        match crate::util::mix(idx) % 7 {
+        match crate::util::mix(idx) % 10 {
             0 => case::<MapC<T24, T24>>(c, &spec, rng, "map:T24xT24"),
             1 => case::<MapC<P8, P8>>(c, &spec, rng, "map:P8xP8"),
             2 => case::<MapC<B1, T24>>(c, &spec, rng, "map:B1xT24"),
             3 => case::<SetC<T24>>(c, &spec, rng, "set:T24"),
             4 => case::<SetC<B1>>(c, &spec, rng, "set:B1"),
             5 => case::<TableC<T24>>(c, &spec, rng, "table:T24"),
-            _ => case::<TableC<P8>>(c, &spec, rng, "table:P8"),
+            6 => case::<TableC<P8>>(c, &spec, rng, "table:P8"),
+            7 => case::<SetC<Z>>(c, &spec, rng, "set:Z"),
+            8 => case::<TableC<Z>>(c, &spec, rng, "table:Z"),
+            _ => zst_table(c, rng),
         }
     });
 }
